@@ -268,7 +268,14 @@ fn exec_framebuf(
         }
         // reference: a fresh buffer filled once, as integers
         let mut fresh = FrameBuf::with_size(channels, capacity).map_err(|e| format!("HARNESS: framebuf: {e}"))?;
-        fresh.fill_interleaved(&block).map_err(|e| format!("HARNESS: reference fill rejected: {e}"))?;
+        if let Err(e) = fresh.fill_interleaved(&block) {
+            return Ok(Some(viol(
+                "valid_fill_rejected",
+                "framebuf",
+                format!("a fresh buffer of capacity {capacity} rejected an integer fill of {} samples: {e}", st.len),
+                case,
+            )));
+        }
         let want = pan::catch(|| frame_bytes(cfg, &fresh, &si, capacity));
         let got = pan::catch(|| frame_bytes(cfg, &fb, &si, capacity));
         stats.ops += 2;
